@@ -130,6 +130,56 @@ type streamWorld struct {
 	nstart int
 	wseen  int
 	direct []string // failures of direct monitors
+	wr     *drpcwire.Writer
+	opts   drpcstream.Options
+}
+
+// successor: once the stream is finished, the manager creates the next stream on the same writer.  Nothing of the
+// finished stream may be emitted from then on ("nothing is emitted after termination"): whatever the old stream left
+// unflushed in the shared writer must not ride on the next stream's first flush.
+func (w *streamWorld) successor() {
+	select {
+	case <-w.s.Finished():
+	default:
+		return
+	}
+	for _, n := range streamThreads {
+		if w.d.Thread(n).Busy() {
+			return
+		}
+	}
+	before := len(w.pipe.Writes())
+	s2 := drpcstream.NewWithOptions(context.Background(), 2, w.wr, w.opts)
+	done := make(chan struct{})
+	go func() {
+		defer close(done)
+		_ = s2.RawWrite(drpcwire.KindInvoke, []byte("next"))
+		_ = s2.RawFlush()
+		_ = s2.Close()
+	}()
+	for i := 0; i < 200; i++ {
+		select {
+		case <-done:
+			i = 1000
+		default:
+			w.pipe.ReleaseWrite(true)
+			time.Sleep(50 * time.Microsecond)
+		}
+	}
+	select {
+	case <-done:
+	case <-time.After(5 * time.Second):
+		w.direct = append(w.direct, "the successor stream on the same writer does not complete its first writes")
+		return
+	}
+	for _, wrc := range w.pipe.Writes()[before:] {
+		for _, f := range wrc.Frames {
+			if f.Sid == 1 {
+				w.direct = append(w.direct, fmt.Sprintf("a frame of the finished stream (%s/%d/%d) was emitted later, with the next stream's writes", dir.KindName(f.Kind), f.Sid, f.Mid))
+				return
+			}
+		}
+	}
 }
 
 func newStreamWorld(small, manual bool) *streamWorld {
@@ -139,8 +189,9 @@ func newStreamWorld(small, manual bool) *streamWorld {
 	if small {
 		size = 1
 	}
-	wr := drpcwire.NewWriter(w.pipe, size)
-	w.s = drpcstream.NewWithOptions(context.Background(), 1, wr, drpcstream.Options{SplitSize: 8, ManualFlush: manual})
+	w.wr = drpcwire.NewWriter(w.pipe, size)
+	w.opts = drpcstream.Options{SplitSize: 8, ManualFlush: manual}
+	w.s = drpcstream.NewWithOptions(context.Background(), 1, w.wr, w.opts)
 	for _, t := range streamThreads {
 		w.d.Thread(t)
 	}
@@ -585,6 +636,9 @@ func C03(c *vf.Ctx) {
 		exec := func(stims []stim, origin string) {
 			w := newStreamWorld(cf.small, cf.manual)
 			lines, quiet := w.run(stims)
+			if quiet {
+				w.successor()
+			}
 			if !w.cleanup() {
 				c.Warn("run left goroutines behind (origin %s)", origin)
 			}
